@@ -219,7 +219,17 @@ pub async fn run_scenario(sc: &Scenario, params: &Params, rng: &mut Rng, rep: &m
     rep.nontrivial(&format!("{}|{}|{}", sc.describe(), params.describe(), with_pool));
     let mut results = vec![];
     let mut rejected_any = false;
+    let mut parentless = false;
     for (i, bytes) in cand_bytes.iter().enumerate() {
+        {
+            // children of a refused block arrive without a parent; with the realistic
+            // configuration such blocks are processed (stored, index rewritten) - they are
+            // accepted blocks, so what they do is C03/C05's business, not C04's
+            let parent = cand_blocks[i].previous_block_hash;
+            if !node.chain.read().await.blocks.contains_key(&parent) && !params.loading_completed {
+                parentless = true;
+            }
+        }
         let before = snapshot_of(&node).await;
         let calls_before = verif::validate_calls();
         let r = crate::panics::catch_async(node.add_bytes(bytes)).await;
@@ -288,6 +298,10 @@ pub async fn run_scenario(sc: &Scenario, params: &Params, rng: &mut Rng, rep: &m
     }
     // the node keeps working: one more honest block on its current tip is accepted onto the
     // longest chain (only judged when that tip is an honest block the builder knows)
+    if parentless {
+        rep.count("followup_skipped_parentless_blocks_processed");
+        return;
+    }
     let (_, tip_now) = node.tip().await;
     if !b.store.has(&tip_now) || !b.store.chain_valid(&tip_now) {
         rep.count("followup_skipped_tip_not_honest");
